@@ -1278,6 +1278,15 @@ func (mgr *Manager) UpdateTag(name string, operation UpdateTagOperation) error {
 				mgr.startConverterJobIfNeeded()
 			}
 			if info.convertersUpdated {
+				// validate the whole request first, nothing may be detached if it fails later
+				for _, converterName := range info.setConverterNames {
+					if _, ok := mgr.converters[converterName]; !ok {
+						return fmt.Errorf("unknown converter %q", converterName)
+					}
+					if !slices.Contains(tag.converterNames(), converterName) && (tag.features.MainFeatures&query.FeatureFilterData != 0 || tag.features.SubQueryFeatures&query.FeatureFilterData != 0 || len(tag.features.MainTags) > 0 || len(tag.features.SubQueryTags) > 0) {
+						return fmt.Errorf("failed to attach converter %q to tag %q: error: cannot attach converter to tag %s because it's query is too complex", converterName, name, name)
+					}
+				}
 				// detach deselected converters from tag
 				for _, converter := range tag.converters {
 					if slices.Contains(info.setConverterNames, converter.Name()) {
